@@ -136,6 +136,17 @@ def end_to_end(chk, tier):
             reqs.append('ci countifs %s 1 %s %s %s' % (tgt_enc, rng_enc, core.enc(rendered), st))
             formulas.append('=SUMIF(%s,%s,%s)' % (R(col), text, R('D')))
             reqs.append('ci sumif %s 1 %s %s %s' % (tgt_enc, rng_enc, core.enc(rendered), st))
+        # SUMIF whose target starts elsewhere than the criteria range (other rows, other column, a single first cell, a rectangle)
+        off = rng.randint(1, 3)
+        tgt2 = [rng.choice([1, 2, 4, 8, 16, 32, 64]) for _ in range(h + off)]
+        for i, v in enumerate(tgt2):
+            values[(7, i)] = v                       # column H, rows 1..h+off
+        for col, kind, op, val, rendered, text in rng.sample(crit_forms, 8):
+            shifted = [[v] for v in tgt2[off:off + h]]
+            st = struct(kind, op, val)
+            for third in ('H%d:H%d' % (off + 1, off + h), 'H%d' % (off + 1)):
+                formulas.append('=SUMIF(%s,%s,%s)' % (R(col), text, third))
+                reqs.append('ci sumif %s 1 %s %s %s' % (core.enc(shifted), core.enc([[v] for v in cols[col]]), core.enc(rendered), st))
         # several pairs
         for _ in range(12):
             pairs = rng.sample(crit_forms, rng.randint(2, 3))
